@@ -4,6 +4,7 @@ CONSTANTS
   VKinds = {"bound", "const", "fixed", "fixed_uint", "handler"}
   EncOpts = {"inherit", "requires", "none"}  CharIds = {1, 2, 3}
   ShellKinds <- ShellKindsAll
+  ShapeChoices <- RandomShapes
   Sizes = {1, 2, 4, 20}  Cccds = {"none", "notify", "indicate"}
 SPECIFICATION GSpec
 INVARIANT Emit
